@@ -57,20 +57,20 @@ CLAIMED = {
 
 # harness families added after the first version of each text (DESIGN.md I.4, "Later additions")
 EXTRA = {
- "C01": "operators with literal and object-field operands incl. && and || (what compile-time rewriting sees), the index operator on multi-byte strings of three origins, prefix operators over literals and constant sub-expressions, printed forms of floats up to 1e300 and of whole numbers beyond 2^63, extreme integers against edge floats (10 operators)",
+ "C01": "operators with literal and object-field operands incl. && and || (what compile-time rewriting sees), the index operator on multi-byte strings of three origins, prefix operators over literals and constant sub-expressions, printed forms of floats up to 1e300 and of whole numbers beyond 2^63, extreme integers against edge floats (10 operators), regexp subjects with blanks and newlines",
  "C02": "`for` loops, non-string switch subjects against literal/expression/regexp arms, conditionals in tail position after foldable constants, statements before a loop whose body calls a looping function",
- "C03": "one operator between a literal and a variable/field/literal of every type (18 operators), 30 prefix-operator forms over constants, jumps landing on jumps after bytes the optimizer removes, `**` `%` `/` `*` between literals whose results leave 64 bits, constants of other types that print like folded results",
- "C04": "the same pointer or map updated in place between runs, runs after a run that failed (six ways, four shape pairs), maps of different key sets one after the other, embedded structs with colliding field names",
+ "C03": "one operator between a literal and a variable/field/literal of every type (18 operators), 30 prefix-operator forms over constants, jumps landing on jumps after bytes the optimizer removes, `**` `%` `/` `*` between literals whose results leave 64 bits, constants of other types that print like folded results, removed constant-bearing code before ++/--",
+ "C04": "the same pointer or map updated in place between runs, runs after a run that failed (six ways, four shape pairs), maps of different key sets one after the other, embedded structs with colliding field names, slice fields sharing a backing array",
  "C05": "values written as literals in the script and results of && / || over literals as further origins, positions consuming !!v",
- "C06": "names used before their `local` declaration, zero-parameter functions with `local` inside nested blocks (scenarios 18-24), correct calls after 100/400 runs that failed 120 frames deep",
- "C07": "a recursion 1100/3000 deep that ends normally or in a fault, histories of 1000/4000 failing runs, histories over objects of other shapes (maps with other keys, other struct types, pointers), reconfiguration between runs (AddFunction, SetVariable) used vs fresh",
- "C08": "run-time faults spelled with symbolic literals (folding at preparation), 12 orders of Prepare/Execute/Run/Dump incl. before Prepare and after a rejected one, symbolic 3/4-byte endings after 11 beginnings, self-containing host objects",
- "C09": "terminating scripts under a context that is already done; loops that do nothing at all (exhausting the instruction budget is a failed assertion there); goroutines started by the code under test are modelled as not yet scheduled",
+ "C06": "names used before their `local` declaration, zero-parameter functions with `local` inside nested blocks (scenarios 18-24), correct calls after 100/400 runs that failed 120 frames deep, callees leaving values behind under pending operands",
+ "C07": "a recursion 1100/3000 deep that ends normally or in a fault, histories of 1000/4000 failing runs, histories over objects of other shapes (maps with other keys, other struct types, pointers), reconfiguration between runs (AddFunction, SetVariable) used vs fresh, runs failing during the conversion of the host object",
+ "C08": "run-time faults spelled with symbolic literals (folding at preparation), 12 orders of Prepare/Execute/Run/Dump incl. before Prepare and after a rejected one, symbolic 3/4-byte endings after 11 beginnings, self-containing host objects, run-time faults under a context; paths that leave the encoding are replayed natively to see whether the real build survives",
+ "C09": "terminating scripts under a context that is already done; loops that do nothing at all (exhausting the instruction budget is a failed assertion there), single operations with huge operands; goroutines started by the code under test are modelled as not yet scheduled",
  "C10": "adversarial TZ values; a script that assigns a variable whose name is symbolic (the solver finds any spelling the machine consults), script texts that look like file names, URLs or commands",
  "C11": "scripts that assign nothing (loops, calls), sync.Pool of the code under test modelled with Put-to-Get hand-over edges, evaluators sharing one container object",
- "C12": "operands that are literal containers or strings indexed in place and chains of index/call/field selections",
+ "C12": "operands that are literal containers or strings indexed in place and chains of index/call/field selections, pairs of prefix operators, expressions as statements",
  "C13": "a symbolic illegal character in three placements, contexts in which a later part overrides or hides the part with the hole, Prepare asked again after a rejection",
- "C15": "values handed out by foreach (kept directly, through a function, as previous value, in an array), values computed inside array literals or call arguments and then mutated",
+ "C15": "values handed out by foreach (kept directly, through a function, as previous value, in an array), values computed inside array literals or call arguments and then mutated, arithmetic on values taken out of containers",
  "C16": "host strings of arbitrary bytes (invalid UTF-8): len, index and foreach agree with the host language's own walk; long string keys differing in one position",
  "C17": "replace/match with symbolic input and replacement against the host regexp library, float() and more argument types for the conversions, concrete instants and zones with sub-minute offsets",
  "C18": "35 statement kinds as the last statement of a function body in four places of definition, hash literals with repeated or coinciding keys, programs ending in nested blocks",
